@@ -258,6 +258,19 @@ def build_session(cs, kname, n):
                 lit = s.lit(e, deps)
                 text = f"{WORD[which]}({lit}, A)" if word else f"{lit} {'∉' if neg else '∈'} A"
                 s.add(text, ("bool", cs["mem"][e - 1] != neg), WORD[which] if word else ("∉" if neg else "∈"), deps)
+        # operand SOURCE dimension: the element held in a variable, the set written in place (the answer depends on the values only)
+        for e in range(1, min(cs["u"], k.n) + 1):
+            deps = set(s.vardeps["A"])
+            s.add(f"ev{e} := {s.lit(e, deps)}", ("setup",), "element-variable", deps)
+            for fi, (ev, sl) in enumerate(((True, False), (True, True), (False, True))):
+                neg = (e + n + fi) % 2 == 1; word = (e + n // 2 + fi) % 2 == 1
+                d2 = set(deps)
+                el = f"ev{e}" if ev else s.lit(e, d2)
+                st = ("{" + ", ".join(s.lit(i, d2) for i in a) + "}") if sl else "A"
+                which = "notin" if neg else "in"
+                text = f"{WORD[which]}({el}, {st})" if word else f"{el} {'∉' if neg else '∈'} {st}"
+                src = ("elem-var" if ev else "elem-lit") + "," + ("set-lit" if sl else "set-var")
+                s.add(text, ("bool", cs["mem"][e - 1] != neg), (WORD[which] if word else ("∉" if neg else "∈")) + "/" + src, d2)
         if k.mat and a:
             deps = set()
             s.add(matrix_define(k, "m", a, s, deps, n % 2 == 0), ("setup",), "matrix", deps)
@@ -288,6 +301,13 @@ def build_session(cs, kname, n):
                 chk = ("bool", cs[op])
             if word and op in WORD_FREE: chk = ("free",) + chk
             s.add(text, chk, label, deps)
+            # operand SOURCE dimension: one or both operands written in place instead of held in a variable
+            form = (n + j) % 3
+            d2 = set(deps)
+            la = ("{" + ", ".join(s.lit(i, d2) for i in a) + "}") if form in (0, 2) else "A"
+            lb = ("{" + ", ".join(s.lit(i, d2) for i in b) + "}") if form in (1, 2) else "B"
+            text2 = f"{WORD[op]}({la}, {lb})" if word else f"{la} {symb} {lb}"
+            s.add(text2, chk, label + "/" + ["lit,var", "var,lit", "lit,lit"][form], d2)
         # operators applied to results of operators (the laws TLC checked on the model, replayed on the code)
         s.add("(A ∖ B) ∪ (A ∩ B)", ("set", [kind_value(k, i) for i in cs["A"]], k.el), "law:(A∖B)∪(A∩B)=A", deps)
         s.add("(A ∪ B) ∖ (A ∩ B)", ("set", [kind_value(k, i) for i in cs["sym"]], k.el), "law:(A∪B)∖(A∩B)=AΔB", deps)
